@@ -24,7 +24,7 @@ def main():
         subprocess.run(["git", "-C", "/repo", "worktree", "add", "-q", "--detach", wt, e["commit"] + "^"], check=True)
         try:
             env = dict(os.environ, VERIF_REPO=wt, VERIF_MAX_MINIMISE="0")
-            p = subprocess.run([os.path.join(VERIF, "bin", "check"), e["property"], "--tier", "quick", "--no-evidence"], capture_output=True, text=True, env=env)
+            p = subprocess.run([os.path.join(VERIF, "bin", "check"), e["property"], "--tier", "quick", "--no-evidence", "--budget", "1200"], capture_output=True, text=True, env=env)
             keys = sorted(set(re.findall(r"key=(\S+)", p.stdout)))
             ok = p.returncode == 1 and e["key"] in keys
             res[e["key"]] = {"commit": e["commit"], "exit": p.returncode, "re_reported": ok, "keys": keys[:10]}
